@@ -853,7 +853,8 @@ GROUP_POOLS = {"MaxwellScalarReg": ("Reg",), "MaxwellScalarSing": ("Sing",), "Ma
                "MaxwellEfieldRegular": ("Reg",), "MaxwellEfieldScatter": ("Reg",), "MaxwellEfieldSingular": ("Sing",),
                "MaxwellSymmetric": ("Reg", "MReg"), "MaxwellMfieldRegular": ("MReg",), "MaxwellMfieldSingular": ("Sing",),
                "MaxwellTwoEfield": ("TwoE", "Pot"), "MaxwellTwoMfield": ("TwoM", "Pot"), "MaxwellPotential": ("Pot",)}
-GROUP_SIZE = {"MaxwellTwoEfield": 7, "MaxwellTwoMfield": 9, "MaxwellPotential": 16, "MaxwellMfieldRegular": 18,
+GROUP_SIZE = {"MaxwellTwoEfield": 5, "MaxwellTwoMfield": 9, "MaxwellPotential": 12, "MaxwellMfieldRegular": 9,
+              "MaxwellMfieldSingular": 9, "MaxwellSymmetric": 9,
               "MaxwellEfieldSingular": 18, "MaxwellEfieldClosed": 14}
 GROUP_HEARTBEATS = {"MaxwellTwoEfield": 1600000, "MaxwellTwoMfield": 1600000}
 
@@ -878,6 +879,12 @@ def write_groups(em, trace_mods, changed, max_per_file=30):
             body += ["", section] + chunk + ["end", "end BemppVerif.AsmMatch", ""]
             changed.append(T.write_if_changed(os.path.join(LEAN, f"BemppVerif/Gen/{mod}.lean"), "\n".join(body)))
             imports.append(f"import BemppVerif.Gen.{mod}")
+    # files of an earlier chunking / grouping are not part of the library any more
+    keep = {m.split(".")[-1] + ".lean" for m in imports} | {f"AsmTracesMaxwell{p}.lean" for p in POOLS}
+    gen_dir = os.path.join(LEAN, "BemppVerif/Gen")
+    for fn in os.listdir(gen_dir):
+        if (fn.startswith("AsmMatchMaxwell") or fn.startswith("AsmTracesMaxwell")) and fn.endswith(".lean") and fn not in keep:
+            os.unlink(os.path.join(gen_dir, fn))
     return imports
 
 
